@@ -75,7 +75,7 @@ def kindName : PyKind → String
   | .str => "str" | .bool => "bool" | .int => "int" | .float => "float"
 
 def sessName : SessionCls → String
-  | .Fix44Session => "Fix44Session" | .Fix50Session => "Fix50Session"
+  | .Fix42Session => "Fix42Session" | .Fix44Session => "Fix44Session" | .Fix50Session => "Fix50Session"
 
 def b (x : Bool) : Sexp := .atom (if x then "true" else "false")
 def t (s : Str) : Sexp := ofNats s
